@@ -514,7 +514,21 @@ fn make_mmap(tmpfile: &mut NamedTempFile, size: Option<usize>) -> Result<Option<
                 tmpfile.path().display()
             )
         })?;
-        Ok(unsafe { MmapMut::map_mut(tmpfile.as_file()).ok() })
+        match unsafe { MmapMut::map_mut(tmpfile.as_file()) } {
+            Ok(map) => Ok(Some(map)),
+            Err(_) => {
+                // No mapping: the data will go through plain writes from the
+                // start of the file, so it must not keep the preallocated
+                // length (a shorter write would leave a zero tail behind).
+                tmpfile.as_file().set_len(0).with_context(|| {
+                    format!(
+                        "Failed to reset file length for temp file at {}",
+                        tmpfile.path().display()
+                    )
+                })?;
+                Ok(None)
+            }
+        }
     } else {
         Ok(None)
     }
